@@ -18,7 +18,8 @@ attribute [simp] ortho frustumMat perspectiveMat planarMat toPerspective
 section maps
 variable {F : Type} [Field F] [CharZero F] [Transc F] [Lits F] [Approx F] [LT F] [DecidableLT F] [LE F] [DecidableLE F]
 
-/-- `ortho` is the affine map sending `[l,r]x[b,t]x[-n,-f]` onto `[-1,1]^3` -/
+/-- the explicit formula of `ortho` on a point: the affine map `x ↦ (2x - (r+l))/(r-l)` etc. (only the formula is stated here;
+that it sends the corners of `[l,r]x[b,t]x[-n,-f]` to those of `[-1,1]^3` is `ortho_corners` below) -/
 theorem ortho_affine (l r b t n f x y z : F) :
     (ortho l r b t n f).transformPoint ⟨x, y, z⟩ =
       ⟨(2 * x - (r + l)) / (r - l), (2 * y - (t + b)) / (t - b), (-2 * z - (f + n)) / (f - n)⟩ := by
